@@ -447,43 +447,382 @@ Section NdBuckets.
     rewrite Eb. reflexivity.
   Qed.
 
-  (* ---------- the two stages composed, for buckets that are not served from the cached vectors ---------- *)
-  Theorem nd_sample_compose (bs : list box) : bs <> [] -> Forall (wfb B) bs ->
-    (forall b, In b bs -> is_axis_bucket d n b = false) ->
-    let segs := concat (map (bucket_segs bm B) bs) in
+  (* ---------- the cached-axis branch: searchsorted (axis_cum b) = locate_r (axis_segs b) ---------- *)
+  Lemma moving_one b : moving_axes b = 1%nat ->
+    let k := moving_axis_index b in
+    (k < length b)%nat /\ degenerate (nth k b (0, 0)%Z) = false
+    /\ forall j, j <> k -> (j < length b)%nat -> degenerate (nth j b (0, 0)%Z) = true.
+  Proof.
+    unfold moving_axes. induction b as [|x b IH]; intro H; [simpl in H; lia|].
+    cbn [filter moving_axis_index] in *. destruct (degenerate x) eqn:D; cbn [negb] in H.
+    - destruct (IH H) as (H1 & H2 & H3). cbv zeta. split; [simpl; lia|]. split; [exact H2|].
+      intros [|j] Hj Hl; [exact D|]. simpl. apply H3; [lia | simpl in Hl; lia].
+    - cbn [length] in H. assert (E : filter (fun lr => negb (degenerate lr)) b = []) by (destruct (filter _ b); [reflexivity | simpl in H; lia]).
+      cbv zeta. split; [simpl; lia|]. split; [exact D|].
+      intros [|j] Hj Hl; [congruence|]. simpl. simpl in Hl.
+      assert (Hin : In (nth j b (0, 0)%Z) b) by (apply nth_In; lia).
+      destruct (degenerate (nth j b (0, 0)%Z)) eqn:Dj; [reflexivity|]. exfalso.
+      assert (In (nth j b (0, 0)%Z) (filter (fun lr => negb (degenerate lr)) b)) by (apply filter_In; split; [assumption | rewrite Dj; reflexivity]).
+      rewrite E in H0. contradiction.
+  Qed.
+
+  Lemma axis_cell_map i : forall b k, (k < length b)%nat -> degenerate (nth k b (0, 0)%Z) = false ->
+    (forall j, j <> k -> (j < length b)%nat -> degenerate (nth j b (0, 0)%Z) = true) ->
+    map (fun lr => if degenerate lr then fst lr else (fst lr + i)%Z) b
+    = map fst (upd b k ((fst (nth k b (0, 0)%Z) + i)%Z, (fst (nth k b (0, 0)%Z) + i)%Z)).
+  Proof.
+    induction b as [|x b IH]; intros k Hk Dk Ho; [simpl in Hk; lia|]. destruct k as [|k]; simpl in *.
+    - rewrite Dk. f_equal. clear IH Dk Hk. assert (Hall : forall j, (j < length b)%nat -> degenerate (nth j b (0, 0)%Z) = true) by (intros j Hj; apply (Ho (S j)); lia).
+      clear Ho. induction b as [|y b IHb]; [reflexivity|]. simpl. pose proof (Hall 0%nat ltac:(simpl; lia)) as D0. simpl in D0. rewrite D0. f_equal.
+      apply IHb. intros j Hj. apply (Hall (S j)). simpl. lia.
+    - pose proof (Ho 0%nat ltac:(lia) ltac:(lia)) as D0. simpl in D0. rewrite D0. f_equal. apply IH; [lia | assumption|].
+      intros j Hj Hl. apply (Ho (S j)); lia.
+  Qed.
+
+  Lemma zrange_incl_nth : forall cnt l i, (i < cnt)%nat -> nth_error (zrange_incl l cnt) i = Some (l + Z.of_nat i)%Z.
+  Proof.
+    induction cnt as [|cnt IH]; intros l i H; [lia|]. destruct i as [|i]; simpl; [f_equal; lia|].
+    rewrite IH by lia. f_equal. lia.
+  Qed.
+  Lemma zrange_incl_length : forall cnt l, length (zrange_incl l cnt) = cnt.
+  Proof. induction cnt as [|cnt IH]; intro l; simpl; [reflexivity | rewrite IH; reflexivity]. Qed.
+
+  Lemma concat_singletons {A} (l : list A) : concat (map (fun x => [x]) l) = l.
+  Proof. induction l as [|x l IH]; simpl; [reflexivity | rewrite IH; reflexivity]. Qed.
+
+  (* what the model returns for an axis bucket, with the residual prob *)
+  Definition axis_out (b : box) (prob : Q) : list Z :=
+    let ith := Z.of_nat (Nat.min (searchsorted (axis_cum bm b) prob) (length (axis_cum bm b) - 1)) in
+    map (fun lr => if degenerate lr then fst lr else (fst lr + ith)%Z) b.
+
+  Theorem axis_bucket_law (b : box) : wfb B b -> moving_axes b = 1%nat ->
+    total (axis_segs b) == bm b /\ seg_nonneg (axis_segs b) /\ axis_segs b <> []
+    /\ (forall lab, In lab (map snd (axis_segs b)) -> exists c, InBox c b /\ lab = enc B c)
+    /\ (forall c, InBox c b -> len_of (enc B c) (axis_segs b) == bm (cellbox c))
+    /\ (forall prob, prob <= bm b -> InBox (axis_out b prob) b /\ locate_r 0 (axis_segs b) prob = Some (enc B (axis_out b prob))).
+  Proof.
+    intros W M1. destruct (moving_one b M1) as (Hk & Dk & Ho). set (k := moving_axis_index b) in *.
+    pose proof (wfb_nth B b k W Hk) as [[R0 R1] R2]. set (lr := nth k b (0, 0)%Z) in *.
+    unfold degenerate in Dk. fold lr in Dk. apply Z.eqb_neq in Dk.
+    set (cnt := Z.to_nat (snd lr - fst lr)). assert (Ecnt : Z.to_nat (snd lr - fst lr + 1) = S cnt) by (unfold cnt; lia).
+    assert (Eseg : axis_segs b = map (fun c => (bm (axis_cell b k c), label B (axis_cell b k c))) (zrange_incl (fst lr) (S cnt))).
+    { unfold axis_segs. fold k lr. rewrite Ecnt. reflexivity. }
+    destruct (axis_total b k W Hk cnt (fst lr) eq_refl Ecnt) as [T N]. rewrite <- Eseg in T, N.
+    assert (Wc : forall c, (fst lr <= c <= snd lr)%Z -> wfb B (axis_cell b k c)) by (intros c Hc; apply wfb_upd; [assumption | lia | lia]).
+    assert (Cell : forall c, (fst lr <= c <= snd lr)%Z -> InBox (map fst (axis_cell b k c)) b).
+    { intros c Hc. apply (InBox_upd_out _ b k c c (InBox_self B _ (Wc c Hc)) Hk); fold lr; lia. }
+    assert (InZ : forall c, In c (zrange_incl (fst lr) (S cnt)) -> (fst lr <= c <= snd lr)%Z).
+    { intros c Hc. destruct (In_nth_error _ _ Hc) as (i & Hi).
+      assert (i < S cnt)%nat by (rewrite <- (zrange_incl_length (S cnt) (fst lr)); apply nth_error_Some; rewrite Hi; discriminate).
+      rewrite zrange_incl_nth in Hi by assumption. inversion Hi. unfold cnt in *. lia. }
+    split; [exact T|]. split; [exact N|]. split; [rewrite Eseg; discriminate|].
+    assert (Lab : forall lab, In lab (map snd (axis_segs b)) -> exists c, InBox c b /\ lab = enc B c).
+    { intros lab Hin. rewrite Eseg, map_map in Hin. apply in_map_iff in Hin. destruct Hin as (c & <- & Hc).
+      exists (map fst (axis_cell b k c)). split; [apply Cell; apply InZ; assumption | reflexivity]. }
+    split; [exact Lab|].
+    (* a cell of the bucket is determined by its coordinate on the moving axis *)
+    assert (CellOf : forall c, InBox c b -> c = map fst (axis_cell b k (nth k c 0%Z)) /\ cellbox c = axis_cell b k (nth k c 0%Z)).
+    { intros c Hc. unfold axis_cell. clear -Hc Hk Ho. unfold k in *. revert Hk Ho. generalize (moving_axis_index b) as kk. intros kk Hk Ho.
+      revert kk Hk Ho. induction Hc as [|x y c b Hx H IH]; intros kk Hk Ho; [simpl in Hk; lia|].
+      destruct kk as [|kk]; simpl.
+      - assert (Hall : forall j, (j < length b)%nat -> degenerate (nth j b (0, 0)%Z) = true) by (intros j Hj; apply (Ho (S j)); simpl; lia).
+        assert (E : c = map fst b /\ cellbox c = b).
+        { clear -H Hall. induction H as [|x y c b Hx H IH]; [split; reflexivity|].
+          pose proof (Hall 0%nat ltac:(simpl; lia)) as D0. simpl in D0. unfold degenerate in D0. apply Z.eqb_eq in D0.
+          destruct (IH (fun j Hj => Hall (S j) ltac:(simpl; lia))) as [E1 E2]. destruct y as [l r]. simpl in *.
+          assert (x = l) by lia. assert (r = l) by lia. subst. split; [f_equal; assumption | unfold cellbox in *; simpl; f_equal; assumption]. }
+        destruct E as [E1 E2]. split; [f_equal; exact E1 | unfold cellbox in *; simpl; f_equal; exact E2].
+      - pose proof (Ho 0%nat ltac:(lia) ltac:(simpl; lia)) as D0. simpl in D0. unfold degenerate in D0. apply Z.eqb_eq in D0.
+        destruct (IH kk ltac:(simpl in Hk; lia) (fun j Hj Hl => Ho (S j) ltac:(lia) ltac:(simpl; lia))) as [E1 E2].
+        destruct y as [l r]. simpl in *. assert (x = l) by lia. assert (r = l) by lia. subst.
+        split; [f_equal; exact E1 | unfold cellbox in *; simpl; f_equal; exact E2]. }
+    split.
+    - intros c Hc. destruct (CellOf c Hc) as [E1 E2]. pose proof (InBox_nth c b Hc k Hk) as Hck. fold lr in Hck.
+      set (ck := nth k c 0%Z) in *.
+      assert (Hn : forall z, nth k (map fst (axis_cell b k z)) 0%Z = z).
+      { intro z. unfold axis_cell. change 0%Z with (fst (0, 0)%Z) at 1. rewrite map_nth, (nth_upd_eq b k (z, z) (0, 0)%Z Hk). reflexivity. }
+      assert (LabInj : forall z z', (fst lr <= z <= snd lr)%Z -> (fst lr <= z' <= snd lr)%Z ->
+                 label B (axis_cell b k z) = label B (axis_cell b k z') -> z = z').
+      { intros z z' Hz Hz' El. unfold label in El. apply (enc_inj B) in El.
+        - rewrite <- (Hn z), <- (Hn z'), El. reflexivity.
+        - unfold axis_cell. rewrite !map_length, !upd_length. reflexivity.
+        - apply (InBox_digits B _ b W). apply Cell. assumption.
+        - apply (InBox_digits B _ b W). apply Cell. assumption. }
+      assert (Hin : In ck (zrange_incl (fst lr) (S cnt))).
+      { apply (nth_error_In _ (Z.to_nat (ck - fst lr))). rewrite zrange_incl_nth by (unfold cnt; lia). f_equal. lia. }
+      destruct (in_split _ _ Hin) as (pre & post & Esp).
+      assert (ND : NoDup (zrange_incl (fst lr) (S cnt))).
+      { clear. generalize (fst lr). induction (S cnt) as [|m IH]; intro l; simpl; constructor; [|apply IH].
+        intro Hc. assert (G0 : forall m0 l0 x, In x (zrange_incl l0 m0) -> (l0 <= x)%Z).
+        { induction m0 as [|m0 IH0]; intros l0 x Hx; simpl in Hx; [contradiction|]. destruct Hx as [<-|Hx]; [lia | apply IH0 in Hx; lia]. }
+        apply G0 in Hc. lia. }
+      rewrite Esp in ND. apply NoDup_remove_2 in ND.
+      assert (Elab : enc B c = label B (axis_cell b k ck)) by (unfold label; rewrite <- E1; reflexivity).
+      rewrite Eseg, Esp, map_app. cbn [map]. rewrite E2, Elab.
+      apply len_of_unique; rewrite map_map; cbn [snd]; intro Hc'; apply in_map_iff in Hc'; destruct Hc' as (c' & El & Hc'').
+      + assert (c' = ck) by (apply LabInj; [apply InZ; rewrite Esp; apply in_or_app; left; assumption | lia | exact El]).
+        subst c'. apply ND. apply in_or_app. left. assumption.
+      + assert (c' = ck) by (apply LabInj; [apply InZ; rewrite Esp; apply in_or_app; right; right; assumption | lia | exact El]).
+        subst c'. apply ND. apply in_or_app. right. assumption.
+    - intros prob Hp. unfold axis_out. rewrite (axis_cum_segs b).
+      set (ps := map fst (axis_segs b)).
+      assert (Lps : length ps = S cnt) by (unfold ps; rewrite Eseg, !map_length, zrange_incl_length; reflexivity).
+      rewrite cumsum_from_length, Lps.
+      pose proof (searchsorted_le (cumsum_from 0 ps) prob) as Hle. rewrite cumsum_from_length, Lps in Hle.
+      set (i := searchsorted (cumsum_from 0 ps) prob) in *.
+      assert (Hi : (i < S cnt)%nat).
+      { destruct (Nat.eq_dec i (S cnt)) as [E|E]; [|lia]. exfalso.
+        pose proof (searchsorted_all prob ps 0 ltac:(fold i; lia) ltac:(destruct ps; [simpl in Lps; lia | discriminate])) as Ha.
+        assert (Et : qsum ps == total (axis_segs b)).
+        { unfold ps. clear. induction (axis_segs b) as [|[l k0] r IH]; simpl; [reflexivity | rewrite IH; reflexivity]. }
+        rewrite Et, T in Ha. lra. }
+      rewrite Nat.min_l by lia.
+      assert (F2 : Forall2 (fun Sg p => total Sg == p /\ seg_nonneg Sg /\ Sg <> []) (map (fun s => [s]) (axis_segs b)) ps).
+      { unfold ps. clear -N. induction (axis_segs b) as [|[l k0] r IH]; simpl; constructor.
+        - simpl. split; [ring|]. split; [constructor; [inversion N; assumption | constructor] | discriminate].
+        - apply IH. inversion N; assumption. }
+      pose proof (concat_locate prob _ _ 0 F2) as CL. cbv zeta in CL. fold i in CL. rewrite concat_singletons in CL.
+      rewrite nth_error_map in CL.
+      assert (Es : nth_error (axis_segs b) i = Some (bm (axis_cell b k (fst lr + Z.of_nat i)), label B (axis_cell b k (fst lr + Z.of_nat i)))).
+      { rewrite Eseg, nth_error_map, zrange_incl_nth by assumption. reflexivity. }
+      rewrite Es in CL. cbn [option_map] in CL. destruct CL as (L & (lab & Ex) & _).
+      rewrite (axis_cell_map (Z.of_nat i) b k Hk ltac:(unfold degenerate; fold lr; apply Z.eqb_neq; lia) Ho). fold lr.
+      split; [apply Cell; unfold cnt in *; lia|].
+      rewrite L. simpl in Ex |- *. destruct (Qle_bool prob (0 + prefix_sum i ps + bm (axis_cell b k (fst lr + Z.of_nat i)))); [reflexivity | discriminate].
+  Qed.
+
+  (* ---------- the two stages composed: every bucket, served from the cached vector or by the bisection ---------- *)
+  Definition seg_of (b : box) : list seg := if is_axis_bucket d n b then axis_segs b else bucket_segs bm B b.
+
+  Lemma is_axis_moving b : is_axis_bucket d n b = true -> moving_axes b = 1%nat.
+  Proof. unfold is_axis_bucket. intro H. apply andb_true_iff in H. destruct H as [_ H]. apply Nat.eqb_eq in H. exact H. Qed.
+
+  Lemma seg_of_spec b : wfb B b ->
+    total (seg_of b) == bm b /\ seg_nonneg (seg_of b) /\ seg_of b <> []
+    /\ (forall lab, In lab (map snd (seg_of b)) -> exists c, InBox c b /\ lab = enc B c)
+    /\ (forall c, InBox c b -> len_of (enc B c) (seg_of b) == bm (cellbox c)).
+  Proof.
+    intro W. unfold seg_of. destruct (is_axis_bucket d n b) eqn:A.
+    - destruct (axis_bucket_law b W (is_axis_moving b A)) as (T & N & Ne & Lab & Len & _). repeat split; assumption.
+    - destruct (sample_one_bucket_law bm B bm_nonneg bm_split b W) as (T & N & Ne & Len & Lab & _). repeat split; assumption.
+  Qed.
+
+  Theorem nd_sample_with_law (bs : list box) : bs <> [] -> Forall (wfb B) bs ->
+    let segs := concat (map seg_of bs) in
     total segs == qsum (map bm bs)
+    /\ seg_nonneg segs
     /\ forall u, u <= qsum (map bm bs) ->
          exists b cell, In b bs /\ InBox cell b
                         /\ nd_sample_with bm d n o bs u = Some (map (fun c => (c - o)%Z) cell)
                         /\ locate_r 0 segs u = Some (enc B cell).
   Proof.
-    intros Hne W NA segs.
-    assert (F2 : Forall2 (fun Sg p => total Sg == p /\ seg_nonneg Sg /\ Sg <> []) (map (bucket_segs bm B) bs) (map bm bs)).
-    { clear NA segs Hne. induction W as [|b bs Wb W IH]; simpl; constructor; [|assumption].
-      destruct (sample_one_bucket_law bm B bm_nonneg bm_split b Wb) as (T & N & Ne & _). repeat split; assumption. }
+    intros Hne W segs.
+    assert (F2 : Forall2 (fun Sg p => total Sg == p /\ seg_nonneg Sg /\ Sg <> []) (map seg_of bs) (map bm bs)).
+    { clear segs Hne. induction W as [|b bs Wb W IH]; simpl; constructor; [|assumption].
+      destruct (seg_of_spec b Wb) as (T & N & Ne & _). repeat split; assumption. }
     split.
-    { unfold segs. clear NA F2 Hne. induction W as [|b bs Wb W IH]; simpl; [reflexivity|].
-      destruct (sample_one_bucket_law bm B bm_nonneg bm_split b Wb) as (T & _). rewrite total_app, T, IH. reflexivity. }
+    { unfold segs. clear F2 Hne. induction W as [|b bs Wb W IH]; simpl; [reflexivity|].
+      destruct (seg_of_spec b Wb) as (T & _). rewrite total_app, T, IH. reflexivity. }
+    split.
+    { unfold segs. clear F2 Hne. induction W as [|b bs Wb W IH]; simpl; [constructor|].
+      destruct (seg_of_spec b Wb) as (_ & N & _). apply seg_nonneg_app. split; assumption. }
     intros u Hu. pose proof (concat_locate u _ _ 0 F2) as CL. cbv zeta in CL.
     unfold nd_sample_with, cumsum.
     set (k := searchsorted (cumsum_from 0 (map bm bs)) u) in *.
     rewrite nth_error_map in CL. destruct (nth_error bs k) as [b|] eqn:E; cbn [option_map] in CL.
     - destruct CL as (L & _ & Lo & Hi).
       assert (Hin : In b bs) by (eapply nth_error_In; eassumption).
-      pose proof (proj1 (Forall_forall _ _) W b Hin) as Wb. rewrite (NA b Hin).
+      pose proof (proj1 (Forall_forall _ _) W b Hin) as Wb.
       set (prob := match k with O => u | S q => u - nth q (cumsum_from 0 (map bm bs)) 0 end).
       assert (Hkl : (k < length bs)%nat) by (apply nth_error_Some; rewrite E; discriminate).
       assert (Ep : prob == u - (0 + prefix_sum k (map bm bs))).
       { unfold prob. destruct k as [|q]; [simpl; ring|]. rewrite cumsum_from_nth by (rewrite map_length; lia). ring. }
-      destruct (sample_one_bucket_law bm B bm_nonneg bm_split b Wb) as (T & N & Ne & _ & _ & Smp).
-      destruct (Smp prob) as (c & G & Hc & Loc). exists b, c. split; [assumption|]. split; [assumption|].
-      rewrite G. split; [reflexivity|]. unfold segs. rewrite L.
-      rewrite (locate_r_shift _ (0 + prefix_sum k (map bm bs)) u).
-      rewrite (locate_r_ext2 _ 0 0 (u - (0 + prefix_sum k (map bm bs))) prob) by (try reflexivity; rewrite Ep; reflexivity).
-      apply Loc. rewrite Ep. rewrite (prefix_sum_S bm bs k b E) in Hi. lra.
+      assert (Hp : prob <= bm b) by (rewrite Ep; rewrite (prefix_sum_S bm bs k b E) in Hi; lra).
+      assert (Sh : forall Sg, locate_r (0 + prefix_sum k (map bm bs)) Sg u = locate_r 0 Sg prob).
+      { intro Sg. rewrite (locate_r_shift _ (0 + prefix_sum k (map bm bs)) u).
+        apply locate_r_ext2; [reflexivity | rewrite Ep; reflexivity]. }
+      unfold segs. rewrite L, Sh. unfold seg_of. destruct (is_axis_bucket d n b) eqn:A.
+      + destruct (axis_bucket_law b Wb (is_axis_moving b A)) as (_ & _ & _ & _ & _ & Ax). destruct (Ax prob Hp) as [Hc Loc].
+        exists b, (axis_out b prob). split; [assumption|]. split; [assumption|]. split; [|exact Loc].
+        unfold axis_out. rewrite map_map. reflexivity.
+      + destruct (sample_one_bucket_law bm B bm_nonneg bm_split b Wb) as (_ & _ & _ & _ & _ & Smp).
+        destruct (Smp prob) as (c & G & Hc & Loc). exists b, c. split; [assumption|]. split; [assumption|].
+        rewrite G. split; [reflexivity | apply Loc; assumption].
     - exfalso. apply nth_error_None in E.
       pose proof (searchsorted_le (cumsum_from 0 (map bm bs)) u) as Hk. fold k in Hk.
       rewrite cumsum_from_length, map_length in Hk. assert (Ek : k = length (map bm bs)) by (rewrite map_length; lia).
       pose proof (searchsorted_all u (map bm bs) 0 Ek ltac:(destruct bs; [congruence | discriminate])). lra.
   Qed.
 End NdBuckets.
+
+(* ---------- the buckets of _pre_computation: itertools.product of the per-axis pieces minus the origin cell ---------- *)
+Section RealBuckets.
+  Variable n o : Z.
+  Hypothesis o_range : (1 <= o)%Z /\ (o + 1 <= n - 1)%Z.
+
+  Definition piece_of (x : Z) : Z * Z := if (x =? o)%Z then (o, o) else if (x <? o)%Z then (0, o - 1)%Z else ((o + 1)%Z, (n - 1)%Z).
+  Definition box_of (c : list Z) : box := map piece_of c.
+
+  Lemma piece_in x : In (piece_of x) (axis_pieces n o).
+  Proof. unfold piece_of, axis_pieces. destruct (x =? o)%Z; [left; reflexivity|]. destruct (x <? o)%Z; simpl; auto. Qed.
+
+  Lemma piece_contains x : (0 <= x < n)%Z -> (fst (piece_of x) <= x <= snd (piece_of x))%Z.
+  Proof.
+    intro H. unfold piece_of. destruct (Z.eqb_spec x o); [simpl; lia|]. destruct (Z.ltb_spec x o); simpl; lia.
+  Qed.
+
+  Lemma piece_unique lr x : In lr (axis_pieces n o) -> (fst lr <= x <= snd lr)%Z -> lr = piece_of x.
+  Proof.
+    unfold axis_pieces, piece_of. intros [<-|[<-|[<-|[]]]] H; simpl in H.
+    - assert ((x =? o)%Z = true) as -> by (apply Z.eqb_eq; lia). reflexivity.
+    - assert ((x =? o)%Z = false) as -> by (apply Z.eqb_neq; lia). assert ((x <? o)%Z = true) as -> by (apply Z.ltb_lt; lia). reflexivity.
+    - assert ((x =? o)%Z = false) as -> by (apply Z.eqb_neq; lia). assert ((x <? o)%Z = false) as -> by (apply Z.ltb_ge; lia). reflexivity.
+  Qed.
+
+  Lemma product_spec k : forall b, In b (boxes_product n o k) <-> length b = k /\ Forall (fun lr => In lr (axis_pieces n o)) b.
+  Proof.
+    induction k as [|k IH]; intro b; cbn [boxes_product].
+    - split; [intros [<-|[]]; split; [reflexivity | constructor] | intros [L _]; destruct b; [left; reflexivity | discriminate]].
+    - rewrite in_flat_map. split.
+      + intros (iv & Hiv & Hb). apply in_map_iff in Hb. destruct Hb as (b' & <- & Hb'). apply IH in Hb'. destruct Hb' as [L Fa].
+        split; [simpl; congruence | constructor; assumption].
+      + intros [L Fa]. destruct b as [|iv b']; [discriminate|]. inversion Fa; subst. exists iv. split; [assumption|].
+        apply in_map. apply IH. split; [simpl in L; lia | assumption].
+  Qed.
+
+  Lemma product_wf k b : In b (boxes_product n o k) -> wfb n b.
+  Proof.
+    intro H. apply product_spec in H. destruct H as [_ Fa]. unfold wfb. eapply Forall_impl; [|exact Fa].
+    intros lr Hin. unfold axis_pieces in Hin. destruct Hin as [<-|[<-|[<-|[]]]]; simpl; lia.
+  Qed.
+
+  Lemma box_of_in c : Forall (fun x => (0 <= x < n)%Z) c -> In (box_of c) (boxes_product n o (length c)) /\ InBox c (box_of c).
+  Proof.
+    intro H. split.
+    - apply product_spec. unfold box_of. rewrite map_length. split; [reflexivity|]. apply Forall_forall. intros lr Hin.
+      apply in_map_iff in Hin. destruct Hin as (x & <- & _). apply piece_in.
+    - unfold InBox, box_of. induction H as [|x c Hx H IH]; simpl; constructor; [apply piece_contains; assumption | assumption].
+  Qed.
+
+  Lemma box_of_unique k b c : In b (boxes_product n o k) -> InBox c b -> b = box_of c.
+  Proof.
+    intros Hb Hc. apply product_spec in Hb. destruct Hb as [_ Fa]. unfold box_of.
+    induction Hc as [|x lr c b Hx H IH]; [reflexivity|]. inversion Fa; subst. simpl. f_equal; [apply piece_unique; assumption | apply IH; assumption].
+  Qed.
+
+  Lemma product_head k : exists rest, boxes_product n o k = repeat (o, o) k :: rest.
+  Proof.
+    induction k as [|k [rest IH]]; [exists []; reflexivity|]. cbn [boxes_product axis_pieces flat_map]. rewrite IH. cbn [map app repeat].
+    eexists. reflexivity.
+  Qed.
+
+  Lemma product_nodup k : NoDup (boxes_product n o k).
+  Proof.
+    induction k as [|k IH]; [constructor; [simpl; tauto | constructor]|].
+    cbn [boxes_product axis_pieces flat_map]. rewrite app_nil_r.
+    assert (Inj : forall iv, NoDup (map (cons iv) (boxes_product n o k))).
+    { intro iv. apply FinFun.Injective_map_NoDup; [intros a b E; inversion E; reflexivity | exact IH]. }
+    assert (Dis : forall iv iv' x, iv <> iv' -> In x (map (cons iv) (boxes_product n o k)) -> In x (map (cons iv') (boxes_product n o k)) -> False).
+    { intros iv iv' x Hne H1 H2. apply in_map_iff in H1. apply in_map_iff in H2. destruct H1 as (a & <- & _). destruct H2 as (b & E & _). inversion E. congruence. }
+    apply NoDup_app'; [apply Inj | apply NoDup_app'; [apply Inj | apply Inj |] |].
+    - intros x. apply Dis. intro E. inversion E. lia.
+    - intros x H1 H2. apply in_app_or in H2. destruct H2 as [H2|H2]; revert H1 H2; apply Dis; intro E; inversion E; lia.
+  Qed.
+
+  Lemma box_of_origin c : box_of c = repeat (o, o) (length c) -> c = repeat o (length c).
+  Proof.
+    induction c as [|x c IH]; intro H; [reflexivity|]. cbn [box_of map length repeat] in *. injection H as Hx Hc. f_equal; [|apply IH; exact Hc].
+    unfold piece_of in Hx. destruct (Z.eqb_spec x o); [assumption|]. destruct (x <? o)%Z; inversion Hx; lia.
+  Qed.
+
+  (* every non-origin cell of the grid lies in exactly one bucket *)
+  Theorem buckets_partition d c : length c = d -> Forall (fun x => (0 <= x < n)%Z) c -> c <> repeat o d ->
+    exists pre post, buckets d n o = pre ++ box_of c :: post /\ InBox c (box_of c)
+                     /\ (forall b, In b (pre ++ post) -> ~ InBox c b).
+  Proof.
+    intros L Fc Hne. destruct (box_of_in c Fc) as [Hin Hc]. rewrite L in Hin.
+    destruct (product_head d) as (rest & Eh). unfold buckets. pose proof (product_nodup d) as ND. rewrite Eh in *. cbn [tl].
+    destruct Hin as [E|Hin]; [exfalso; apply Hne; rewrite <- L; apply box_of_origin; rewrite L; symmetry; exact E|].
+    destruct (in_split _ _ Hin) as (pre & post & Er). exists pre, post. split; [exact Er|]. split; [exact Hc|].
+    intros b Hb Hcb. assert (Hbp : In b (boxes_product n o d)).
+    { rewrite Eh. right. rewrite Er. apply in_app_or in Hb. apply in_or_app. destruct Hb; [left; assumption | right; right; assumption]. }
+    pose proof (box_of_unique d b c Hbp Hcb) as Eb. subst b.
+    apply NoDup_cons_iff in ND. destruct ND as [_ ND']. rewrite Er in ND'. apply NoDup_remove_2 in ND'. contradiction.
+  Qed.
+
+  Lemma buckets_wf d : Forall (wfb n) (buckets d n o).
+  Proof.
+    apply Forall_forall. intros b Hb. apply (product_wf d). unfold buckets in Hb. destruct (boxes_product n o d); [contradiction | right; assumption].
+  Qed.
+
+  Lemma buckets_nonempty d : (1 <= d)%nat -> buckets d n o <> [].
+  Proof.
+    intro Hd. destruct d as [|d]; [lia|]. unfold buckets. cbn [boxes_product axis_pieces flat_map].
+    destruct (product_head d) as (rest & Eh). rewrite Eh. cbn [map app tl]. destruct rest; discriminate.
+  Qed.
+End RealBuckets.
+
+(* ---------- the law of nd_sample on the real bucket list ---------- *)
+Section NdSampleLaw.
+  Variable bm : box -> Q.
+  Variable d : nat.
+  Variable n o : Z.
+  Hypothesis bm_nonneg : forall b, wfb n b -> 0 <= bm b.
+  Hypothesis bm_split : forall b k m, wfb n b -> (k < length b)%nat ->
+    (fst (nth k b (0, 0)%Z) <= m < snd (nth k b (0, 0)%Z))%Z ->
+    bm b == bm (upd b k (fst (nth k b (0, 0)%Z), m)) + bm (upd b k ((m + 1)%Z, snd (nth k b (0, 0)%Z))).
+  Hypothesis o_range : (1 <= o)%Z /\ (o + 1 <= n - 1)%Z.
+  Hypothesis d_pos : (1 <= d)%nat.
+
+  (* the consecutive right-closed intervals of the sampler: bucket after bucket *)
+  Definition nd_segs_all : list seg := concat (map (seg_of bm n d n) (buckets d n o)).
+
+  Theorem nd_sample_law :
+    total nd_segs_all == qsum (map bm (buckets d n o))
+    /\ seg_nonneg nd_segs_all
+    /\ (forall u, u <= qsum (map bm (buckets d n o)) ->
+          exists cell, length cell = d /\ Forall (fun x => (0 <= x < n)%Z) cell /\ cell <> repeat o d
+                       /\ nd_sample bm d n o u = Some (map (fun c => (c - o)%Z) cell)
+                       /\ locate_r 0 nd_segs_all u = Some (enc n cell))
+    /\ (forall c, length c = d -> Forall (fun x => (0 <= x < n)%Z) c -> c <> repeat o d ->
+          len_of (enc n c) nd_segs_all == bm (cellbox c)).
+  Proof.
+    pose proof (buckets_wf n o o_range d) as W. pose proof (buckets_nonempty n o d d_pos) as Ne.
+    destruct (nd_sample_with_law bm n bm_nonneg bm_split d n o (buckets d n o) Ne W) as (T & N & Smp).
+    split; [exact T|]. split; [exact N|]. split.
+    - intros u Hu. destruct (Smp u Hu) as (b & cell & Hb & Hc & G & Loc). exists cell.
+      pose proof (proj1 (Forall_forall _ _) W b Hb) as Wb.
+      assert (Hbp : In b (boxes_product n o d)) by (unfold buckets in Hb; destruct (boxes_product n o d); [contradiction | right; assumption]).
+      pose proof (proj1 (product_spec n o d b) Hbp) as [Lb _].
+      split; [rewrite (InBox_length _ _ Hc); exact Lb|]. split; [apply (InBox_digits n cell b Wb Hc)|].
+      split; [|split; [exact G | exact Loc]].
+      (* the origin cell lies in no bucket *)
+      intro Eo. subst cell. pose proof (box_of_unique n o d b _ Hbp Hc) as Eb.
+      assert (Ebo : box_of n o (repeat o d) = repeat (o, o) d).
+      { clear. unfold box_of. induction d as [|k IH]; [reflexivity|]. simpl. rewrite IH. unfold piece_of. rewrite Z.eqb_refl. reflexivity. }
+      rewrite Ebo in Eb. subst b. destruct (product_head n o d) as (rest & Eh). pose proof (product_nodup n o o_range d) as ND.
+      unfold buckets in Hb. rewrite Eh in *. cbn [tl] in Hb. inversion ND. contradiction.
+    - intros c L Fc Hne. destruct (buckets_partition n o o_range d c L Fc Hne) as (pre & post & Eb & Hc & Oth).
+      unfold nd_segs_all. rewrite Eb, map_app, concat_app. cbn [map concat]. rewrite !len_of_app.
+      assert (Wb : wfb n (box_of n o c)) by (apply (proj1 (Forall_forall _ _) W); rewrite Eb; apply in_or_app; right; left; reflexivity).
+      destruct (seg_of_spec bm n bm_nonneg bm_split d n (box_of n o c) Wb) as (_ & _ & _ & _ & Len).
+      rewrite (Len c Hc).
+      assert (Zero : forall l, (forall b, In b l -> In b (pre ++ post)) -> len_of (enc n c) (concat (map (seg_of bm n d n) l)) == 0).
+      { induction l as [|b l IH]; intro Hl; [reflexivity|]. cbn [map concat]. rewrite len_of_app, IH by (intros b' Hb'; apply Hl; right; assumption).
+        rewrite len_of_notin; [ring|]. intro Hin.
+        assert (Hbl : In b (pre ++ post)) by (apply Hl; left; reflexivity).
+        assert (Wb' : wfb n b).
+        { apply (proj1 (Forall_forall _ _) W). rewrite Eb. apply in_app_or in Hbl. apply in_or_app. destruct Hbl; [left; assumption | right; right; assumption]. }
+        destruct (seg_of_spec bm n bm_nonneg bm_split d n b Wb') as (_ & _ & _ & Lab & _).
+        destruct (Lab _ Hin) as (c' & Hc' & E). assert (c = c').
+        { apply (enc_inj n); [|exact (InBox_digits n c _ Wb Hc) | exact (InBox_digits n c' b Wb' Hc') | exact E].
+          rewrite L. symmetry. rewrite (InBox_length _ _ Hc').
+          assert (Hbp : In b (boxes_product n o d)).
+          { assert (Hin2 : In b (buckets d n o)) by (rewrite Eb; apply in_app_or in Hbl; apply in_or_app; destruct Hbl; [left; assumption | right; right; assumption]).
+            unfold buckets in Hin2. destruct (boxes_product n o d); [contradiction | right; assumption]. }
+          apply (proj1 (product_spec n o d b) Hbp). }
+        subst c'. apply (Oth b Hbl). exact Hc'. }
+      rewrite (Zero pre) by (intros; apply in_or_app; left; assumption).
+      rewrite (Zero post) by (intros; apply in_or_app; right; assumption). ring.
+  Qed.
+End NdSampleLaw.
